@@ -6,6 +6,7 @@ import (
 	"flag"
 	"fmt"
 	"os"
+	"strings"
 
 	"verif/harness/orch"
 	"verif/harness/props"
@@ -27,7 +28,32 @@ func inprocProp(monitor string, quickTimeout, thoroughTimeout int) propFunc {
 }
 
 func init() {
-	registry["C15"] = inprocProp("c15", 600, 3600)
+	registry["C15"] = func(c *orch.Ctx) (*report.Result, error) {
+		// a replay file of the end-to-end stage carries "stage":"end-to-end"
+		e2eReplay := false
+		if c.Replay != "" {
+			if b, err := os.ReadFile(c.Replay); err == nil && strings.Contains(string(b), `"stage": "end-to-end"`) {
+				e2eReplay = true
+			}
+		}
+		var res *report.Result
+		if e2eReplay {
+			res = &report.Result{Property: "C15"}
+		} else {
+			r, err := inprocProp("c15", 600, 3600)(c)
+			if err != nil {
+				return nil, err
+			}
+			res = r
+			if c.Replay != "" {
+				return res, nil
+			}
+		}
+		if err := props.C15EndToEnd(c, res); err != nil {
+			return nil, err
+		}
+		return res, nil
+	}
 	registry["C16"] = inprocProp("c16", 600, 3600)
 	registry["C17"] = inprocProp("c17", 900, 7200)
 	registry["SURVEY"] = survey
